@@ -413,6 +413,13 @@ func judge(rep *hx.Report, c *Case, out Outcome) {
 		}
 		return
 	}
+	if out.HistoryBad != "" {
+		d := c.Detail(out)
+		rep.Fail(hx.Failure{Class: "history:" + c.Family, Oracle: c.ExpectWhy + " -- also on every later Execute of a reused Interpreter", Detail: d})
+	}
+	if len(out.History) > 0 {
+		rep.Count("history-after-error:" + c.Family)
+	}
 	failed := out.Err != ""
 	if c.Kind == "cli" {
 		failed = out.Status != 0
